@@ -604,6 +604,34 @@ int main(int argc, char **argv) {
   J.objectEnd();
   J.attributeEnd();
 
+  // enumerators grouped by enumeration type, in declaration order (for recognising renamed enumerators)
+  J.attributeBegin("enum_types");
+  J.arrayBegin();
+  {
+    std::set<const DICompositeType *> seenT;
+    for (DIType *T : DIF.types())
+      if (auto *CT = dyn_cast<DICompositeType>(T))
+        if (CT->getTag() == dwarf::DW_TAG_enumeration_type && seenT.insert(CT).second) {
+          J.objectBegin();
+          J.attribute("name", CT->getName());
+          J.attribute("file", CT->getFile() ? CT->getFile()->getFilename() : "");
+          J.attributeBegin("elems");
+          J.arrayBegin();
+          for (auto *E : CT->getElements())
+            if (auto *En = dyn_cast<DIEnumerator>(E)) {
+              J.arrayBegin();
+              J.value(En->getName());
+              J.value((int64_t)En->getValue().getSExtValue());
+              J.arrayEnd();
+            }
+          J.arrayEnd();
+          J.attributeEnd();
+          J.objectEnd();
+        }
+  }
+  J.arrayEnd();
+  J.attributeEnd();
+
   J.attributeBegin("globals");
   J.arrayBegin();
   for (const GlobalVariable &GV : M->globals()) {
